@@ -74,7 +74,9 @@ def _cases(ctx, nl):
     cases = []
     hist = {'lenses': 0, 'mirrors': 0, 'finite_object': 0, 'stop_first': 0, 'stop_last': 0, 'aperture': {}, 'field': {}}
     corp = [c for c in lensgen.corpus() if c['name'] in ('mangin', 'image-in-glass', 'tir-planoconvex', 'window-before-stop', 'cemented', 'paraboloid',
-                                                        'centre-of-curvature')]
+                                                        'centre-of-curvature', 'rear-stop-finite-object')]
+    _r2 = random.Random(ctx.seed * 13 + 5)      # own stream: the main stream stays as it was
+    corp += [lensgen.rear_stop_spec(_r2) for _ in range(3)]      # random members of the EPL < 0, finite-object family
     for li in range(nl + len(corp)):
         spec = dict(corp[li]) if li < len(corp) else lensgen.gen_spec(rng, allow=['plane', 'standard', 'conic', 'even_asphere'], decenter=False,
                                                                                   finite_object=(True if li % 4 == 3 else None))
@@ -107,6 +109,8 @@ def _cases(ctx, nl):
         hist['lenses'] += 1
         hist['mirrors'] += int(any(s['refl'] for s in ps))
         hist['finite_object'] += int(not math.isinf(spec['object_thickness']))
+        if not math.isinf(spec['object_thickness']) and isinstance(impl.get('EPL'), float) and impl['EPL'] < 0:
+            hist['finite_object_pupil_in_front'] = hist.get('finite_object_pupil_in_front', 0) + 1
         st = [bool(s.get('is_stop')) for s in spec['surfaces']].index(True)
         hist['stop_first'] += int(st == 0)
         hist['stop_last'] += int(st == len(spec['surfaces']) - 1)
